@@ -642,7 +642,7 @@ public:
      * @param idMap The IdMap object to construct.
      * @param reportedConnections A set of connection identifiers to prevent duplicate reporting.
      */
-    void buildComponentIdMap(const ComponentPtr &component, IdMap &idMap, std::set<std::string> &reportedConnections);
+    void buildComponentIdMap(const ComponentPtr &component, IdMap &idMap, std::set<NamePair> &reportedConnections);
 
     /** @brief Utility function to add an item to the idMap.
      *
@@ -2716,7 +2716,7 @@ IdMap Validator::ValidatorImpl::buildModelIdMap(const ModelPtr &model)
 {
     IdMap idMap;
     std::string info;
-    std::set<std::string> reportedConnections;
+    std::set<NamePair> reportedConnections;
     // Model.
     if (!model->id().empty()) {
         info = " - model '" + model->name() + "'";
@@ -2773,7 +2773,7 @@ IdMap Validator::ValidatorImpl::buildModelIdMap(const ModelPtr &model)
     return idMap;
 }
 
-void Validator::ValidatorImpl::buildComponentIdMap(const ComponentPtr &component, IdMap &idMap, std::set<std::string> &reportedConnections)
+void Validator::ValidatorImpl::buildComponentIdMap(const ComponentPtr &component, IdMap &idMap, std::set<NamePair> &reportedConnections)
 {
     std::string info;
 
@@ -2806,8 +2806,10 @@ void Validator::ValidatorImpl::buildComponentIdMap(const ComponentPtr &component
             auto equivParent = owningComponent(equiv);
             if (equivParent != nullptr) {
                 // Skipping half of the equivalences to avoid duplicate reporting.
-                std::string s1 = item->name() + component->name();
-                std::string s2 = equiv->name() + equivParent->name();
+                // (Compare the names as pairs: concatenating them makes, e.g., variable 'ab' in
+                // component 'c' indistinguishable from variable 'a' in component 'bc'.)
+                NamePair s1 = std::make_pair(item->name(), component->name());
+                NamePair s2 = std::make_pair(equiv->name(), equivParent->name());
                 std::string mappingId = Variable::equivalenceMappingId(item, equiv);
                 // Variable mapping.
                 if ((s1 < s2) && !mappingId.empty()) {
@@ -2828,7 +2830,7 @@ void Validator::ValidatorImpl::buildComponentIdMap(const ComponentPtr &component
                 }
                 // Connections.
                 auto connectionId = Variable::equivalenceConnectionId(item, equiv);
-                std::string connection = component->name() < equivParent->name() ? component->name() + equivParent->name() : equivParent->name() + component->name();
+                NamePair connection = component->name() < equivParent->name() ? std::make_pair(component->name(), equivParent->name()) : std::make_pair(equivParent->name(), component->name());
                 if ((s1 < s2) && !connectionId.empty() && (reportedConnections.count(connection) == 0)) {
                     std::string connectionDescription =
                         "between components '" + component->name() + "' and '" + equivParent->name()
